@@ -171,6 +171,8 @@ class Oracle:
             if self.dyn:
                 return self.fresh("d", qlist(t[3]))
             return self.fresh("a" if self.npv else "v", self.conv(int(t[1]), qlist(t[3])))
+        if op == "newfrom":
+            return self.fresh("v", self.conv(int(t[1]), self.R[int(t[2])].vals()))
         x = self.R[int(t[1])]
         n = len(x)
         xv = x.vals()
@@ -545,6 +547,13 @@ def gen(ctx, sizes):
             m = len(range(n)[slice(*[None if t == "_" else int(t) for t in (a, b, c)])])
             cases.append(" ; ".join(["npv", "new %d list %s" % (n, ql(base)), "slice 0 %s %s %s" % (a, b, c)] +
                                     [o % i for i in range(m) for o in ("getc 1 %d", "getva 1 %d", "getcopy 1 %d")]))
+    # (10) deepening round: FieldVector_n( R[r] ) through the buffer constructor from vectors of other sizes, views, reversed and
+    #      stepped slices and slices of slices (stride loop of C20_construct_buffer); iteration over views
+    for n in sizes:
+        for m in sizes:
+            y = rvals(m)
+            cases.append("new %d list %s ; newfrom %d 0 ; slice 0 _ _ -1 ; newfrom %d 2 ; slice 0 _ _ 2 ; newfrom %d 4 ; slice 2 1 _ 2 ; newfrom %d 6 ; "
+                         "set 0 0 77 ; iter 1 ; iter 2 ; iter 6 ; view 0 ; newfrom %d 8 ; slice 4 _ _ -1 ; newfrom %d 10 ; iter 10" % (m, ql(y), n, n, n, n, n, n))
     cases.append("npv ; bad2d")
     cases.append("tva ; f 17 ; v 2,2 ; f 3 ; v 1,2,3")
     # (5) random op sequences mixing views, copies and writes: a weighted walk over the shape of the registers
@@ -572,6 +581,8 @@ def gen(ctx, sizes):
                 c = rng.choice(["_", "_", "1", "-1", "2", "-2"])
                 ops.append("slice %d %s %s %s" % (any_r, a, b, c))
                 regs.append(("a", len(range(m)[slice(*[None if t == "_" else int(t) for t in (a, b, c)])])))
+            elif z < 0.31:
+                m = rng.choice(sizes); ops.append("newfrom %d %d" % (m, any_r)); regs.append(("v", m))
             elif z < 0.34:
                 ops.append("copyctor %d" % any_r); regs.append(regs[any_r])
             elif z < 0.36 and neg_ok:
@@ -621,9 +632,40 @@ def impl_cmd(run):
     return run + [os.path.join(HARNESS, "impl.py")]
 
 
+def params_hook(ctx):
+    """re-read the literals of the binding sources (tools/params.d/C20.py) into coq/Params_gen.v"""
+    V.sh([sys.executable, os.path.join(V.VERIF, "tools", "extract_params.py"), ctx.repo], check=True)
+    try:
+        rep = json.load(open(os.path.join(V.VERIF, "build", "params_report.json")))
+        ctx.coverage["source_literals"] = {k: v for k, v in rep.items() if k.startswith("c20_")}
+    except Exception:
+        pass
+
+
 def run(ctx):
-    V.coq_stage(ctx)
-    model = V.build_model(ctx)
+    ctx.params_hook = params_hook
+    for attempt in range(3):
+        if V.coq_stage(ctx):
+            break
+        # coq/Params_gen.v(.vo) is shared by all properties and regenerated by every check (also from --repo trees): when another
+        # check rebuilds it between this check's dependency build and its coqc of Properties_C20.v, coqc reports "inconsistent
+        # assumptions over library DuneV.Params_gen".  That is a build race, not a broken theorem: rebuild and try again.
+        log = (ctx.coq or {}).get("log", "")
+        if "inconsistent assumptions" in log and attempt < 2:
+            ctx.viol[:] = [v for v in ctx.viol if not v[0].startswith("coq:")]
+            ctx.notes.append("Coq stage repeated: Params_gen.vo was rebuilt concurrently by another check (attempt %d)" % (attempt + 1))
+            time.sleep(3)
+            continue
+        break
+    for attempt in range(3):
+        try:
+            model = V.build_model(ctx)
+            break
+        except V.BuildError as e:            # same race during extraction
+            if "inconsistent assumptions" in str(e) and attempt < 2:
+                time.sleep(3)
+                continue
+            raise
     env, runner, origin = setup_env(ctx)
     sizes = sizes_of(ctx)
     prebuild(ctx, env, runner, sizes + ["npv", "dynj"] + (TV_CASES[:1] if ctx.quick else TV_CASES))
@@ -644,6 +686,7 @@ def run(ctx):
               "npv_ro": [i for i, c in enumerate(cases) if only_npv(c) and not writes(c)]}
     io = [None] * len(cases)
     tmo = 240 if ctx.quick else 1200
+    env = dict(env, C20_INNER_TIMEOUT=str(tmo - 10))      # run.sh reaps a hung interpreter (and its dune-py lock) by itself
     for g in ("main", "dyn", "npv_ro"):
         for i, o in zip(groups[g], V.run_cases(ctx, impl_cmd(runner), [cases[i] for i in groups[g]], tag="impl_" + g, timeout=tmo, env=env)):
             io[i] = o
@@ -662,7 +705,7 @@ def run(ctx):
                          "that NumPyVector ignores strides (F-C20-3): they would write outside the array" % len(skipped))
     keep = [i for i in range(len(cases)) if io[i] is not None]
     cases, mo, io, mo_cur = [cases[i] for i in keep], [mo[i] for i in keep], [io[i] for i in keep], [mo_cur[i] for i in keep]
-    modelled = [i for i, c in enumerate(cases) if not is_dyn(c)]
+    modelled = [i for i, c in enumerate(cases) if not (is_dyn(c) and mo[i] == "-")]
     agree_fixed = sum(1 for i in modelled if mo[i] == io[i])
     agree_cur = sum(1 for i in modelled if mo_cur[i] == io[i])
     nviol = ndis = nms = 0
@@ -681,13 +724,13 @@ def run(ctx):
                 sig, reason, shrunk = v
                 ctx.violation(sig, {"case": shrunk, "full_case": c, "impl": a, "model": m, "oracle": reason,
                                     "replay_cmd": "bin/check C20 --replay <this file>"})
-        elif a != m and not is_dyn(c):
+        elif a != m and not (is_dyn(c) and m == "-"):
             ndis += 1
             if ndis <= 20:
                 ctx.violation("corr:C20/script", {"broken": "corr:C20/script", "case": c, "impl": a, "model": m,
                                                   "oracle": "accepts impl output"}, found_input=False)
         # the model itself must satisfy the spec interpreter (sanity of the theorems' reading)
-        if not is_dyn(c) and "?" not in m and spec_line(c) != m:
+        if not (is_dyn(c) and m == "-") and "?" not in m and spec_line(c) != m:
             nms += 1
             if nms <= 5:
                 ctx.notes.append("model/spec-oracle mismatch on `%s`: model %s / oracle %s" % (c, m, spec_line(c)))
